@@ -10,6 +10,12 @@ used = {}
 for f in sorted(glob.glob('/verif/seeded/C*/meta.json')):
     m = json.load(open(f)); pid = m['property']
     used.setdefault(pid, []).append(m['summary'][:260].replace('\n', ' '))
+import re as _re
+touched = {}
+for f in sorted(glob.glob('/verif/seeded/C*/patch.diff')):
+    pid = os.path.basename(os.path.dirname(f))[:3]
+    for m in _re.finditer(r'^\+\+\+ b/(\S+)', open(f).read(), _re.M):
+        touched.setdefault(pid, set()).add(m.group(1))
 needs = ["two cooperating sites that each look fine alone", "a fault or error at a particular point", "a particular multi-step sequence of operations", "an unusual but legal input", "a particular interleaving or ordering of events (responses, timeouts, key presses, threads)"]
 for i, l in enumerate(open('/verif/properties.jsonl')):
     p = json.loads(l); pid = p['id']
@@ -50,6 +56,9 @@ Earlier exercises already used the following changes for this property. Choose a
 DIFFERENT mechanism from all of them (do not re-create any of these, nor a close variant); prefer a place
 in the code none of them touched (a helper, a conversion, glue between modules, a rarely taken branch):
 {prev}
+
+Files those changes touched: {', '.join(sorted(touched.get(pid, [])))}. If the property can be broken from a file that is
+not in this list, prefer that.
 
 Rules:
 - Change only non-test source (`crates/*/src`), not tests, not `#[cfg(test)]` modules, not items guarded by
